@@ -22,6 +22,9 @@ checks = {
  "C08": ("E1", E1,
    "All schedules (pre-emption bound 2/3) of 2-3 client threads x 1-2 operations on a ConcurrentQueue / ConcurrentStack wrapping (i) a hostile non-thread-safe probe container that yields inside every method and detects overlapping calls and (ii) the real LinkedListQueue with race-directed scheduling points on its fields; every complete call/return history (plus a final sequential drain) must be linearizable w.r.t. a FIFO/LIFO model (porcupine, cross-checked by brute force), with no overlap, panic or blocked thread.",
    "Bounded clients/operations/pre-emptions; SC interleavings; vsched runtime model; porcupine v1.3.0 as history judge.", "DESIGN.md §2, §5 C08"),
+ "C16": ("E1", E1,
+   "All schedules (pre-emption bound 2, 1 for the larger lists; happens-before state cache) of PMap over lists of length 0-3 (thorough 0-4) x FixedPool in {no option,-1,0,1,2,len,len+1} x ordered/RandomOrder with a data-dependent-duration f that yields inside: result equals Map(f,list) (or a permutation), f applied exactly once per element, at most min(FixedPool,len) applications in flight, none after return, every execution terminates.",
+   "Bounded list length/pre-emptions; SC interleavings; vsched runtime model.", "DESIGN.md §2, §5 C16"),
 }
 
 not_yet = "check not built yet in this round (see DESIGN.md §9 build order); no claim made"
